@@ -116,6 +116,16 @@ class TableV(Val):
                   self.pad, None)
 
 
+FSUB = z3.Function('feature_subset', FeatSet, FeatSet, z3.BoolSort())
+
+
+def fsub(ctx, a, b):
+  """a <= b on feature sets: an uninterpreted partial order (reflexive, antisymmetric at the instances used)."""
+  ctx.assume(z3.And(FSUB(a, a), FSUB(b, b), z3.Implies(z3.And(FSUB(a, b), FSUB(b, a)), a == b),
+                    z3.Implies(a == b, FSUB(a, b))))
+  return FSUB(a, b)
+
+
 class FeatSetV(Val):
 
   def __init__(self, term):
@@ -130,7 +140,28 @@ class FeatSetV(Val):
       return self.term == other.term
     if op == 'NotEq':
       return self.term != other.term
+    a, b = self.term, other.term
+    if op == 'LtE':
+      return fsub(ctx, a, b)
+    if op == 'GtE':
+      return fsub(ctx, b, a)
+    if op == 'Lt':
+      return z3.And(fsub(ctx, a, b), a != b)
+    if op == 'Gt':
+      return z3.And(fsub(ctx, b, a), a != b)
     raise Unsupported('feature set ordering')
+
+  def method(self, ctx, name, args, kwargs):
+    if name in ('issuperset', 'issubset') and len(args) == 1:
+      o = args[0]
+      if isinstance(o, OptV):
+        o = o.val
+      if not isinstance(o, FeatSetV):
+        if not hasattr(o, 'key_set'):
+          raise Unsupported(f'set.{name} argument')
+        o = o.key_set(ctx)
+      return fsub(ctx, o.term, self.term) if name == 'issuperset' else fsub(ctx, self.term, o.term)
+    raise Unsupported(f'set.{name}')
 
   def fresh_like(self, ctx, base):
     return FeatSetV(ctx.fresh(base, FeatSet))
